@@ -129,7 +129,7 @@ func (p *Project) Render(opts RenderOpts) *Rendered {
 
 	// ---- type declarations, one file per package ----
 	for _, pk := range p.Pkgs {
-		var body strings.Builder
+		var body, extraConsts strings.Builder
 		imports := map[string]bool{}
 		use := func(t T) {
 			t.Walk(func(x T) {
@@ -163,7 +163,12 @@ func (p *Project) Render(opts RenderOpts) *Rendered {
 				eq = " = "
 			}
 			body.WriteString(fmt.Sprintf("// %s is an enumeration.\ntype %s%s%s\n\nconst (\n", e.Name, e.Name, eq, e.Base))
-			for _, v := range e.Values {
+			for vi, v := range e.Values {
+				if e.SplitConsts && len(e.Values) > 1 && vi >= len(e.Values)/2 {
+					// the rest of the constants lives in a second file of the package
+					extraConsts.WriteString(fmt.Sprintf("const %s %s = %s\n\n", v.Name, e.Name, v.Lit))
+					continue
+				}
 				body.WriteString(fmt.Sprintf("\t%s %s = %s\n", v.Name, e.Name, v.Lit))
 			}
 			body.WriteString(")\n\n")
@@ -187,7 +192,18 @@ func (p *Project) Render(opts RenderOpts) *Rendered {
 			if s.IsError && !s.ErrorLast {
 				body.WriteString("\terror\n")
 			}
-			for _, f := range s.Fields {
+			skipNext := false
+			for fi, f := range s.Fields {
+				if skipNext {
+					skipNext = false
+					continue
+				}
+				if f.GroupWithNext && fi+1 < len(s.Fields) {
+					use(f.Type)
+					body.WriteString("\t" + f.GoName + ", " + s.Fields[fi+1].GoName + " " + f.Type.GoExpr(pk.Key, q) + "\n")
+					skipNext = true
+					continue
+				}
 				use(f.Type)
 				if f.Descr != "" {
 					body.WriteString("\t// " + f.Descr + "\n")
@@ -229,6 +245,9 @@ func (p *Project) Render(opts RenderOpts) *Rendered {
 		writeImports(&sb, imports, nil)
 		sb.WriteString(body.String())
 		out.Files[filepath.Join(pk.Dir, "zz_types.go")] = sb.String()
+		if extraConsts.Len() > 0 {
+			out.Files[filepath.Join(pk.Dir, "aa_consts.go")] = "package " + pk.Name + "\n\n" + extraConsts.String()
+		}
 	}
 
 	// ---- controllers ----
